@@ -1573,6 +1573,12 @@ func orC20(t *Trans) []Viol {
 				args = append(args, a)
 			}
 		}
+		// whatever was asked for: an accepted `config` must leave files that Goit still loads, otherwise every
+		// key set before is lost to all later commands
+		if t.Res.Class == "ok" && configLoads(t.Pre.CfgLocal) && configLoads(t.Pre.CfgGlobal) &&
+			(!configLoads(t.Post.CfgLocal) || !configLoads(t.Post.CfgGlobal)) {
+			return []Viol{{Clause: "set-frame", Detail: fmt.Sprintf("config %q %q was accepted and left a configuration file that no longer loads", args[0], strings.Join(args[1:], " "))}}
+		}
 		if len(args) != 2 || strings.Count(args[0], ".") != 1 {
 			return nil
 		}
